@@ -16,7 +16,7 @@ E14 = [
 ]
 QUICK = {r"a|ab", r"a*b", r"(a)(b)?", r"a.*?b", r"\bab", r"ab$"}
 
-TINY = ["", "cap=1,clears=0", "cap=64,clears=1", "cap=512,clears=6,det=2", "states=1"]
+TINY = ["", "cap=1,clears=0", "det=1", "cap=64,clears=1", "cap=512,clears=6,det=2", "states=1"]
 
 
 def alpha(p):
@@ -43,6 +43,14 @@ def items(tier):
             for at in ([1] if tier == "quick" else [1, 2]):
                 for api in (["pike.SearchAt", "bt.Search", "dfa.SearchAt", "dfa.Anchored"] if tier == "quick" else ["pike.SearchAt", "pike.SlotTableAt", "pike.Between", "bt.Search", "dfa.Find", "dfa.SearchAt", "dfa.IsMatch", "dfa.Anchored"]):
                     out.append(mk("C14", p, api, maxL, a, n=at))
+        else:
+            # look-behind patterns at a start offset (reference: regexp on the whole ASCII haystack)
+            for api in ["pike.SearchAt", "bt.Search", "dfa.Find", "dfa.SearchAt", "dfa.IsMatch"]:
+                out.append(mk("C14", p, api, maxL, "ascii", n=1, mode=1))
+        # tiny caches at a start offset: the NFA fall-back must still see the bytes before the offset
+        for x in (TINY[1:3] if tier == "quick" else TINY[1:]):
+            for api in ["dfa.Find", "dfa.SearchAt"]:
+                out.append(mk("C14", p, api, maxL, a if lbfree else "ascii", n=1, mode=0 if lbfree else 1, extra=x))
         # cache too small to hold the automaton / clear budget exhausted / determinisation limit
         for x in TINY[1:] if tier != "quick" else TINY[1:3]:
             for api in ["dfa.Find", "dfa.IsMatch", "dfa.SearchFirstAt"] if tier != "quick" else ["dfa.Find"]:
